@@ -30,6 +30,14 @@ SPEC = os.path.join(env.SPEC, "ExactPosterior")
 REPORT_FIELDS = ["GP", "GL", "AFP", "ACP", "AOP", "SNVDP", "AFPRIOR"]
 
 
+import time
+_T0 = time.time()
+
+
+def log(msg):
+    print("[C03 %6.1fs] %s" % (time.time() - _T0, msg), flush=True)
+
+
 def unlimb(l):
     v = 0
     for x in reversed(l):
@@ -264,10 +272,10 @@ def validate_traces(ck, cases, label, expect_reject=None):
 
 
 def random_instance(rnd):
-    K = rnd.randint(1, 5)
-    N = rnd.randint(1, 4) if K > 1 else rnd.randint(0, 2)
     P = rnd.randint(1, 5)
     while True:
+        K = rnd.randint(1, 5)
+        N = rnd.randint(1, 4) if K > 1 else rnd.randint(0, 2)
         A = [rnd.randint(2, 3) for _ in range(N)]
         H = [[rnd.randrange(A[j]) for j in range(N)] for _ in range(K)]
         if len({tuple(h) for h in H}) == K:
@@ -546,6 +554,7 @@ def main():
         ck.note("mutant_specs_killed", killed)
     except tlc.TLCError as e:
         ck.machinery_failure(str(e))
+    log("TLC done: %d states, %d instances" % (r.distinct, len(r.printed)))
     models = {}
     for rec in r.printed:
         M = Model(rec)
@@ -589,10 +598,12 @@ def main():
                     cmp_stream(ck, M, o["expanded"], (True, True, True), mode + ":expanded", site="posterior_mode(read_counts=None)")
         ck.sample({"kind": "instance", "mode": mode, "inst": models[keys[len(keys) // 3]].inst,
                    "model_total_J": str(models[keys[len(keys) // 3]].total)})
+        log("API replay %s done" % mode)
     ck.traces += len(models)
 
     # ---- spec -> code, command line level ----------------------------------------
     cli_cases = run_cli(ck, models, rnd, tier)
+    log("command line level done")
 
     # ---- code -> spec --------------------------------------------------------------
     n_stream = 250 if tier == "quick" else 2500
@@ -627,6 +638,7 @@ def main():
                 inst = rand[ri]
             out_cases.append(api_events(_M, o["variants"]["freq"]))
             ri += 1
+    log("traces recorded")
     n1, _ = validate_traces(ck, cases, "stream")
     n2, _ = validate_traces(ck, out_cases, "outputs")
     n3, _ = validate_traces(ck, cli_cases, "cli")
@@ -640,6 +652,7 @@ def main():
     if cli_cases:
         ck.sample({"kind": "cli-fields-event", "events": cli_cases[0][:2]})
 
+    log("traces validated")
     # ---- binding demonstration: corrupted traces must be rejected --------------------
     bad_cases, expect = [], []
     if cases:
